@@ -773,7 +773,7 @@ Definition script (ls : list string) : bytes := List.concat (List.map (fun l => 
 
 Definition cfg0 (coe : bool) : config :=
   {| c_continue := coe; c_explicit_exec := false; c_unique := false; c_update := false;
-     c_host_conds := [(b "linux", true); (b "windows", false)];
+     c_host_conds := []; c_goos := b "linux"; c_goarch := b "amd64"; c_go_minor := 23;
      c_custom_cond := None; c_cmds := [(b "probe", CProbe)]; c_main_cmds := [b "tshelper"];
      c_helper := b "tshelper"; c_helper_dir := b "/h"; c_watch := [b "X"]; c_deadline := false; c_cancelled := false |}.
 Definition env0 : list (bytes * bytes) := [(b "WORK", b "/w"); (b "PATH", b "/h")].
@@ -870,13 +870,13 @@ Qed.
 
 (* with the flag an entry whose path is already taken (by an earlier entry of the same name,
    by a file, a directory or a link) makes setup fail: FAIL file:0 whatever ContinueOnError says *)
-Theorem unique_names_step st name data r t1 :
-  let p := mkabs st (expand [] name) in
+Theorem unique_names_step st work name data r t1 :
+  let p := mkabs st (expand (s_env st) name) in
   mkdir_all (s_fs st) (dir p) 511 = (t1, true) ->
   lstat t1 p <> None ->
-  snd (unpack true ((name, data) :: r) st) = false.
+  snd (unpack true work ((name, data) :: r) st) = false.
 Proof.
-  intros p Hm Hl. cbn [unpack]. fold p.
+  intros p Hm Hl. cbn [unpack]. fold p. destruct (beneath work p); [|reflexivity]. cbn [negb].
   change (s_fs (set_files st (assoc_set (s_files st) p name))) with (s_fs st). rewrite Hm.
   assert (write_file_excl t1 p data 438 = None) as ->; [|reflexivity].
   unfold write_file_excl. unfold lstat in Hl.
@@ -891,16 +891,123 @@ Theorem setup_failure_is_fail_0 cfg work env a st :
   r_verdict (run_archive cfg work env a) = Fail 0 /\ r_fail_lines (run_archive cfg work env a) = [0].
 Proof. intros H. unfold run_archive. rewrite H. auto. Qed.
 
+(* one unpacking step that succeeds: the entry is written at the EXPANDED location [p] and
+   registered there under the name it has in the archive *)
+Theorem unpack_step st work (u : bool) name data r t1 t2 :
+  let p := mkabs st (expand (s_env st) name) in
+  beneath work p = true ->
+  mkdir_all (s_fs st) (dir p) 511 = (t1, true) ->
+  (if u then write_file_excl t1 p data 438 else write_file t1 p data 438) = Some t2 ->
+  unpack u work ((name, data) :: r) st
+  = unpack u work r (set_fs (set_files st (assoc_set (s_files st) p name)) t2).
+Proof.
+  intros p Hb Hm Hw. cbn [unpack]. fold p. rewrite Hb. cbn [negb].
+  change (s_fs (set_files st (assoc_set (s_files st) p name))) with (s_fs st). rewrite Hm, Hw. reflexivity.
+Qed.
+
 (* without the flag a later entry of the same name silently replaces the earlier one *)
-Theorem non_unique_overwrites st name data r t1 t2 :
-  let p := mkabs st (expand [] name) in
+Theorem non_unique_overwrites st work name data r t1 t2 :
+  let p := mkabs st (expand (s_env st) name) in
+  beneath work p = true ->
   mkdir_all (s_fs st) (dir p) 511 = (t1, true) ->
   write_file t1 p data 438 = Some t2 ->
-  unpack false ((name, data) :: r) st
-  = unpack false r (set_fs (set_files st (assoc_set (s_files st) p name)) t2).
+  unpack false work ((name, data) :: r) st
+  = unpack false work r (set_fs (set_files st (assoc_set (s_files st) p name)) t2).
+Proof. intros p Hb Hm Hw. exact (unpack_step st work false name data r t1 t2 Hb Hm Hw). Qed.
+
+(* ---- entry names: expanded with the initial variables, refused when they leave $WORK *)
+
+(* an entry whose expanded name is not the work directory or below it: setup stops there, the
+   state (tree, scriptFiles) is the one the earlier entries left *)
+Theorem escaping_name_stops_unpack st work u name data r :
+  beneath work (mkabs st (expand (s_env st) name)) = false ->
+  unpack u work ((name, data) :: r) st = (st, false).
+Proof. intros Hb. cbn [unpack]. rewrite Hb. reflexivity. Qed.
+
+(* os.Expand on a text without '$' is the identity *)
+Fixpoint no_dollar (d : bytes) : bool :=
+  match d with [] => true | c :: r => negb (beq c x24) && no_dollar r end.
+
+Lemma expand_fuel_no_dollar env d : forall fuel, length d < fuel -> no_dollar d = true -> expand_fuel fuel env d = d.
 Proof.
-  intros p Hm Hw. cbn [unpack]. fold p.
-  change (s_fs (set_files st (assoc_set (s_files st) p name))) with (s_fs st). rewrite Hm, Hw. reflexivity.
+  induction d as [|c r IH]; intros fuel Hf Hn.
+  - destruct fuel; reflexivity.
+  - destruct fuel as [|f]; [inversion Hf|]. cbn [no_dollar] in Hn. apply andb_true_iff in Hn. destruct Hn as [Hc Hr].
+    cbn [expand_fuel]. apply negb_true_iff in Hc. rewrite Hc. f_equal. apply IH; [simpl in Hf; apply Nat.succ_lt_mono; exact Hf|exact Hr].
+Qed.
+
+Lemma expand_no_dollar env d : no_dollar d = true -> expand env d = d.
+Proof. intros H. unfold expand. apply expand_fuel_no_dollar; [apply Nat.lt_succ_diag_r|exact H]. Qed.
+
+Definition work_ref : bytes := (* "$WORK" *) [x24; x57; x4f; x52; x4b].
+Definition work_key : bytes := (* "WORK" *) [x57; x4f; x52; x4b].
+
+Lemma expand_fuel_mono env : forall n d f1 f2, length d <= n -> length d < f1 -> length d < f2 -> expand_fuel f1 env d = expand_fuel f2 env d.
+Proof.
+  induction n as [|n IH]; intros d f1 f2 Hn H1 H2.
+  - destruct d; [|simpl in Hn; lia]. destruct f1, f2; reflexivity.
+  - destruct f1 as [|f1]; [lia|]. destruct f2 as [|f2]; [lia|].
+    destruct d as [|c r]; [reflexivity|]. cbn [expand_fuel]. simpl in Hn, H1, H2.
+    destruct (beq c x24).
+    + destruct r as [|c2 r2]; [reflexivity|].
+      destruct (shell_name (c2 :: r2)) as [nm w]. f_equal.
+      pose proof (skipn_length w (c2 :: r2)) as L. apply IH; rewrite L; cbn [length] in *; lia.
+    + f_equal. apply IH; lia.
+Qed.
+
+Lemma expand_fuel_dollar env f c r :
+  expand_fuel (S f) env (x24 :: c :: r)
+  = (match fst (shell_name (c :: r)) with
+     | [] => if Nat.eqb (snd (shell_name (c :: r))) 0 then [x24] else []
+     | _ => expand_var env (fst (shell_name (c :: r)))
+     end) ++ expand_fuel f env (skipn (snd (shell_name (c :: r))) (c :: r)).
+Proof. cbn [expand_fuel]. change (beq x24 x24) with true. cbv iota. destruct (shell_name (c :: r)) as [nm w]. reflexivity. Qed.
+
+Lemma shell_name_work q : shell_name (x57 :: x4f :: x52 :: x4b :: SLASH :: q) = (work_key, 4).
+Proof. reflexivity. Qed.
+
+(* "$WORK/q" (q without '$') expands to the value of WORK followed by "/q" *)
+Theorem expand_work_named env q :
+  no_dollar q = true ->
+  expand env (work_ref ++ [SLASH] ++ q) = getenv env work_key ++ [SLASH] ++ q.
+Proof.
+  intros Hq. unfold expand.
+  change (work_ref ++ [SLASH] ++ q) with (x24 :: x57 :: x4f :: x52 :: x4b :: SLASH :: q).
+  rewrite expand_fuel_dollar, shell_name_work. cbn [fst snd skipn work_key].
+  unfold expand_var. change (strip_at_r [x57; x4f; x52; x4b]) with (@None bytes). cbv iota.
+  f_equal.
+  rewrite (expand_fuel_mono env (length (SLASH :: q)) (SLASH :: q) _ (S (length (SLASH :: q)))).
+  - change (expand_fuel (S (length (SLASH :: q))) env (SLASH :: q)) with (expand env (SLASH :: q)).
+    apply expand_no_dollar. change (no_dollar (SLASH :: q)) with (no_dollar q). exact Hq.
+  - lia.
+  - cbn [length]. lia.
+  - lia.
+Qed.
+
+(* ... so an entry named $WORK/q is unpacked at, and registered under, <work>/q -- with the
+   name "$WORK/q" it has in the archive as the value update mode writes back *)
+Theorem work_named_entry st work (u : bool) q data r t1 t2 :
+  let name := work_ref ++ [SLASH] ++ q in
+  let p := getenv (s_env st) work_key ++ [SLASH] ++ q in
+  no_dollar q = true ->
+  is_abs (getenv (s_env st) work_key) = true ->
+  beneath work p = true ->
+  mkdir_all (s_fs st) (dir p) 511 = (t1, true) ->
+  (if u then write_file_excl t1 p data 438 else write_file t1 p data 438) = Some t2 ->
+  exists st', unpack u work ((name, data) :: r) st = unpack u work r st'
+    /\ s_fs st' = t2 /\ assoc_get (s_files st') p = Some name.
+Proof.
+  intros name p Hq Ha Hb Hm Hw.
+  assert (mkabs st (expand (s_env st) name) = p) as Hp.
+  { unfold name. rewrite (expand_work_named _ q Hq). fold p. unfold mkabs.
+    assert (is_abs p = true) as ->; [|reflexivity].
+    unfold p. destruct (getenv (s_env st) work_key) as [|c w]; [discriminate|]. exact Ha. }
+  exists (set_fs (set_files st (assoc_set (s_files st) p name)) t2). split; [|split].
+  - rewrite <- Hp in Hb, Hm, Hw |- *. exact (unpack_step st work u name data r t1 t2 Hb Hm Hw).
+  - reflexivity.
+  - cbn [s_files set_fs set_files]. clear. induction (s_files st) as [|[k v] m IH]; cbn [assoc_set assoc_get].
+    + rewrite bytes_eqb_refl. reflexivity.
+    + destruct (bytes_eqb p k) eqn:E; cbn [assoc_get]; [rewrite bytes_eqb_refl; reflexivity|rewrite E; exact IH].
 Qed.
 
 Module ParamsExamples.
@@ -910,7 +1017,7 @@ Local Open Scope list_scope.
 Import Examples.
 Definition cfgp (ree uniq : bool) : config :=
   {| c_continue := true; c_explicit_exec := ree; c_unique := uniq; c_update := false;
-     c_host_conds := []; c_custom_cond := None; c_cmds := []; c_main_cmds := [b "tshelper"];
+     c_host_conds := []; c_goos := b "linux"; c_goarch := b "amd64"; c_go_minor := 23; c_custom_cond := None; c_cmds := []; c_main_cmds := [b "tshelper"];
      c_helper := b "tshelper"; c_helper_dir := b "/h"; c_watch := []; c_deadline := false; c_cancelled := false |}.
 Definition dup := script ["exists a.txt"; "-- a.txt --"; "one"; "-- a.txt --"; "two"].
 (* a duplicate entry name: setup fails (line 0) with the flag, even under ContinueOnError;
@@ -1074,7 +1181,7 @@ Local Open Scope list_scope.
 Import Examples.
 Definition cfgd (coe dl : bool) : config :=
   {| c_continue := coe; c_explicit_exec := false; c_unique := false; c_update := false;
-     c_host_conds := []; c_custom_cond := None; c_cmds := []; c_main_cmds := [b "tshelper"];
+     c_host_conds := []; c_goos := b "linux"; c_goarch := b "amd64"; c_go_minor := 23; c_custom_cond := None; c_cmds := []; c_main_cmds := [b "tshelper"];
      c_helper := b "tshelper"; c_helper_dir := b "/h"; c_watch := []; c_deadline := dl; c_cancelled := false |}.
 Definition rund (dl : bool) (ls : list string) : run_result := run_file (cfgd false dl) (b "/w") env0 (script ls).
 
